@@ -272,7 +272,10 @@ impl downstream::PendingRequest for PendingRequest {
                 if request.method == http::Method::CONNECT && !self.icmp_available =>
             {
                 log_id!(debug, self.id, "ICMP forwarding isn't set up");
-                fail_request(self.stream, BAD_STATUS_CODE, vec![]);
+                fail_request_with_error(
+                    self.stream,
+                    tunnel::ConnectionError::Other("ICMP forwarding isn't set up".to_string()),
+                );
                 Ok(None)
             }
             Some(UDP_AUTHORITY) | Some(ICMP_AUTHORITY)
